@@ -70,6 +70,18 @@ var OwnOps = []OwnOp{
 	{"p,q=q,p", "p, q = q, p"},
 	{"r=&p.v", "if p != nil {\n\t\tr = &p.v\n\t}"},
 	{"r=&walk(p).v", "for n, x := 0, p; x != nil && n < 3; n, x = n+1, x.next {\n\t\tr = &x.v\n\t}"},
+	// --- extension 2: maps keyed by heap strings / structs holding heap strings, interface equality ---
+	{"m2[hk]=n", "m2[zzKey(1)] = @N@"},
+	{"delete(m2,hk)", "delete(m2, zzKey(1))"},
+	{"m3[K]=n", "m3[zzK{zzKey(1), 1}] = @N@"},
+	{"delete(m3,K)", "delete(m3, zzK{zzKey(1), 1})"},
+	{"i=hs", "i = zzKey(1)"},
+	{"j=i", "j = i"},
+	{"j=hs", "j = zzKey(1)"},
+	{"j=int", "j = int32(@N@)"},
+	{"j=K", "j = zzK{zzKey(1), 1}"},
+	{"j=p", "if p != nil {\n\t\tj = p\n\t} else {\n\t\tj = nil\n\t}"},
+	{"eq(i,j)", "if i == j {\n\t\tprint(\"eq \")\n\t}\n\tif i != j {\n\t\tprint(\"ne \")\n\t}"},
 }
 
 // OwnCoreOps is the size of the original alphabet (a prefix of OwnOps); the operations after it
@@ -265,6 +277,38 @@ func zzHeapStr() string {
 	return string(b)
 }
 
+type zzK struct {
+	name string
+	n    int32
+}
+
+// zzKey: a key string whose bytes live in a heap block (built at run time): "k1", "k2", ...
+func zzKey(c int32) string {
+	b := []byte{107, uint8(48 + c)}
+	return string(b)
+}
+
+func zzObsI(x interface{}) {
+	switch v := x.(type) {
+	case nil:
+		print("-")
+	case *zzT:
+		zzObsT(v)
+	case string:
+		print("S")
+		print(v)
+	case int32:
+		print("N")
+		print(v)
+	case zzK:
+		print("K")
+		print(v.name)
+		print(v.n)
+	default:
+		print("?")
+	}
+}
+
 func zzG(x *zzT) *zzT { return x }
 
 func zzUse(x *zzT) {
@@ -297,7 +341,7 @@ func zzObsT(p *zzT) {
 	}
 }
 
-func zzObs(p, q *zzT, s, t []*zzT, m map[int32]*zzT, i interface{}, f func() int32, str string, b []byte, v, w zzW, u string, r *int32) {
+func zzObs(p, q *zzT, s, t []*zzT, m map[int32]*zzT, i interface{}, f func() int32, str string, b []byte, v, w zzW, u string, r *int32, m2 map[string]int32, m3 map[zzK]int32, j interface{}) {
 	print("p")
 	zzObsT(p)
 	print(" q")
@@ -322,12 +366,49 @@ func zzObs(p, q *zzT, s, t []*zzT, m map[int32]*zzT, i interface{}, f func() int
 		print(k)
 		zzObsT(x)
 	}
-	if i == nil {
-		print(" i-")
-	} else if x, ok := i.(*zzT); ok {
-		print(" i")
-		zzObsT(x)
+	print(" i")
+	zzObsI(i)
+	print(" j")
+	zzObsI(j)
+	if i == j {
+		print("==")
+	} else {
+		print("!=")
 	}
+	print(" m2_")
+	print(len(m2))
+	if x, ok := m2[zzKey(1)]; ok {
+		print("a")
+		print(x)
+	}
+	if x, ok := m2[zzKey(2)]; ok {
+		print("b")
+		print(x)
+	}
+	var sum2, len2 int32
+	for k, x := range m2 {
+		sum2 += x
+		len2 += int32(len(k))
+	}
+	print("s")
+	print(sum2)
+	print("l")
+	print(len2)
+	print(" m3_")
+	print(len(m3))
+	if x, ok := m3[zzK{zzKey(1), 1}]; ok {
+		print("a")
+		print(x)
+	}
+	var sum3, len3 int32
+	for k, x := range m3 {
+		sum3 += x + k.n
+		len3 += int32(len(k.name))
+	}
+	print("s")
+	print(sum3)
+	print("l")
+	print(len3)
 	if f == nil {
 		print(" f-")
 	} else {
@@ -374,6 +455,9 @@ const ownVars = `	var p, q *zzT
 	var v, w zzW
 	var u string
 	var r *int32
+	m2 := map[string]int32{}
+	m3 := map[zzK]int32{}
+	var j interface{}
 `
 
 const ownSeed = `	p = &zzT{v: 1}
@@ -381,9 +465,12 @@ const ownSeed = `	p = &zzT{v: 1}
 	m[1] = &zzT{v: 4}
 	str = zzHeapStr()
 	u = str
+	m2[zzKey(2)] = 7
+	m3[zzK{zzKey(2), 2}] = 8
+	j = zzKey(1)
 `
 
-const ownObsCall = "zzObs(p, q, s, t, m, i, f, str, b, v, w, u, r)"
+const ownObsCall = "zzObs(p, q, s, t, m, i, f, str, b, v, w, u, r, m2, m3, j)"
 
 func ownStmt(op, pos int) string {
 	return strings.ReplaceAll(OwnOps[op].Stmt, "@N@", fmt.Sprint(10*(pos+1)))
@@ -445,6 +532,9 @@ const ownReset = `		p = nil
 		w = zzW{}
 		u = ""
 		r = nil
+		m2 = map[string]int32{}
+		m3 = map[zzK]int32{}
+		j = nil
 `
 
 // OwnLoopCase renders body h in the given shape: helper function(s) zzLoop<idx>(n) plus
@@ -602,6 +692,10 @@ func (md *OwnModel) Apply(op int) {
 		}
 	case "f=closure(p)":
 		md.f = true
+	case "i=hs":
+		md.i, md.iSet = nil, false
+	case "m2[hk]=n", "delete(m2,hk)", "m3[K]=n", "delete(m3,K)", "j=i", "j=hs", "j=int", "j=K", "j=p", "eq(i,j)":
+		// j, m2, m3 are never loaded back into a pointer variable
 	case "q=m[absent]":
 		md.q = md.m[2]
 	case "p,q=q,p":
